@@ -136,13 +136,14 @@ func (g *G) genGovTx() *world.TxStep {
 		if amt.IsZero() {
 			amt = sdk.NewCoins(sdk.NewInt64Coin(simnet.FeeDenom, int64(1+g.intn("spend-amt", 1000))))
 		}
-		spend := &distrtypes.MsgCommunityPoolSpend{Authority: govAddr.String(), Recipient: burn.String(), Amount: amt}
+		var inner sdk.Msg = &distrtypes.MsgCommunityPoolSpend{Authority: govAddr.String(), Recipient: burn.String(), Amount: amt}
+		title := "pay the burn address"
 		dep := sdk.NewCoins(sdk.NewInt64Coin(simnet.BondDenom, int64(pick(g, "deposit", []int{10000000, 10000000, 20000000, 5000000}))))
-		m, err := govv1.NewMsgSubmitProposal([]sdk.Msg{spend}, dep, w.Accts[g.acct("proposer")].Addr.String(), "", "pay the burn address", "community pool spend to the burn address")
+		m, err := govv1.NewMsgSubmitProposal([]sdk.Msg{inner}, dep, w.Accts[g.acct("proposer")].Addr.String(), "", title, title)
 		if err != nil {
 			panic(err)
 		}
-		msg, note = m, "submit-proposal-paying-burn-address"
+		msg, note = m, "submit-proposal: "+title
 	default:
 		voter := 0
 		if g.chance("other-voter", 10) {
